@@ -126,9 +126,9 @@ Fixpoint cfold (e : cexpr) : option G :=
   match e with
   | CConst g => Some g
   | CNum _ => None
-  | CAdd a b => match cfold a, cfold b with Some x, Some y => Some (gadd x y) | _, _ => None end
+  | CAdd a b => match cfold a, cfold b with Some x, Some y => Some (gred (gadd x y)) | _, _ => None end
   | CMul a b => match cfold a, cfold b with
-                | Some x, Some y => Some (gmul x y)
+                | Some x, Some y => Some (gred (gmul x y))
                 | Some x, None => if gzerob x then Some g0 else None
                 | None, Some y => if gzerob y then Some g0 else None
                 | _, _ => None end
@@ -234,13 +234,14 @@ Fixpoint vals_eqb (a b : list (option G)) : bool :=
 Definition obs_eqb (m e : list (list Z * list (option G))) : bool :=
   (length m =? length e)%nat &&
   forallb (fun kv => match lookup (fst kv) e with Some v => vals_eqb (snd kv) v | None => false end) m.
-(** semantic comparison: a missing key counts as the zero coefficient *)
+(** semantic comparison: a missing key counts as the zero coefficient; grid points where the
+    implementation's value is undefined (zoo/nan from a vanishing denominator) are not compared *)
 Definition all0 (a : list (option G)) : bool :=
   forallb (fun o => match o with Some g => gzerob g | None => true end) a.
 Definition obs_sem_eqb (m e : list (list Z * list (option G))) : bool :=
   forallb (fun kv => match lookup (fst kv) e with Some v => vals_eqb (snd kv) v | None => all0 (snd kv) end) m
   && forallb (fun kv => match lookup (fst kv) m with Some _ => true
-                        | None => forallb (fun o => match o with Some g => gzerob g | None => false end) (snd kv) end) e.
+                        | None => forallb (fun o => match o with Some g => gzerob g | None => true end) (snd kv) end) e.
 Definition check_tree (ks : sig) (t : tree) (grid : list occ)
            (expected : list (list Z * list (option G))) (exact : bool) : bool :=
   match teval ks t with
